@@ -66,6 +66,10 @@ def make_app(was_debug=None):
     def hc():
         raise ValueError('boom ' + hooked.request.query_string)
     app.hooked = hooked
+    # a development application in the same process runs with debug on: that is ITS configuration
+    dev = Ombott()
+    dev.config.debug = True
+    app.dev = dev
     if was_debug:
         # developed with debug on (pages with exception text and traceback were rendered), then switched off for production
         for pth in ('/nowhere', '/crash', '/gencrash/x'):
